@@ -43,7 +43,7 @@ theorem quote_roundtrip (c : Conf) (hv : c.Valid) (hq : '"' ∈ c.quotes) (xs : 
   obtain ⟨T, hT, -⟩ := mkTokenizer_ok (effBrackets_ok hv tables_ok) (effPipe c) c.quotes
   have hd := dqTok_of_mk tables_ok (effBrackets_ok hv tables_ok) hT hq
   rw [hT]
-  have := tokenizeT_dq hd quoteBody xs (fun x _ => goodWriter_quoteBody x)
+  have := tokenizeT_dq hd quoteBody toCps xs (fun x _ => goodWriter_quoteBody x)
   simp only [show dq quoteBody = quote from rfl] at this
   simp only [this]
 
@@ -108,5 +108,76 @@ theorem nesting_disabled_flat (c : Conf) (hoff : c.nested = false ∨ (c.bracket
 /-- non-vacuity: `[a] <b>` with nesting off is two plain tokens -/
 example : ∃ ts, tokenize ⟨false, ['[', ']'], true, ['"']⟩ ['[', 'a', ']', ' ', '|'] = .tree ts ∧ ts.length = 2 :=
   ⟨_, rfl, rfl⟩
+
+/-! ### `utils.str.dqrepr` as the writer
+
+Full statement (FALSE on the pinned tree — see `dqrepr_roundtrip_counterexample`; recorded as known
+finding `C13-dqrepr-latin1-reread`):
+
+    theorem dqrepr_roundtrip (c : Conf) (hv : c.Valid) (hq : '"' ∈ c.quotes) (xs : List Str) :
+        tokenize c (joinChar ' ' (xs.map dqrepr)) = .tree (xs.map fun x => .leaf (toCps x))
+
+What is proved instead: the exact result for *every* argument list (`dqrepr_reread`), the round trip
+for every argument outside the class `InRereadClass` (`dqrepr_roundtrip_partial`), and that every
+argument inside the class comes back as different text (`dqrepr_class_exact`): the class is exact. -/
+
+/-- What arguments written with `dqrepr` come back as, for every argument list: the code points of
+each argument after `_handleToken`'s latin-1/utf-8 step (`reread`). -/
+theorem dqrepr_reread (c : Conf) (hv : c.Valid) (hq : '"' ∈ c.quotes) (xs : List Str) :
+    tokenize c (joinChar ' ' (xs.map dqrepr)) = .tree (xs.map fun x => .leaf (reread (toCps x))) := by
+  unfold tokenize
+  obtain ⟨T, hT, -⟩ := mkTokenizer_ok (effBrackets_ok hv tables_ok) (effPipe c) c.quotes
+  have hd := dqTok_of_mk tables_ok (effBrackets_ok hv tables_ok) hT hq
+  rw [hT]
+  have := tokenizeT_dq hd dqreprBody (fun x => reread (toCps x)) xs (fun x _ => goodWriter_dqreprBody x)
+  simp only [show dq dqreprBody = dqrepr from rfl] at this
+  simp only [this]
+
+/-- `dqrepr` protects every argument outside the class "all code points ≤ U+00FF, at least one
+non-ASCII, and the code points read as bytes are valid UTF-8". -/
+theorem dqrepr_roundtrip_partial (c : Conf) (hv : c.Valid) (hq : '"' ∈ c.quotes) (xs : List Str)
+    (hx : ∀ x ∈ xs, ¬ InRereadClass x) :
+    tokenize c (joinChar ' ' (xs.map dqrepr)) = .tree (xs.map fun x => .leaf (toCps x)) := by
+  rw [dqrepr_reread c hv hq xs]
+  congr 1
+  apply List.map_congr_left
+  intro x hxm
+  rw [reread_of_not_class x (hx x hxm)]
+
+/-- non-vacuity: text with a code point above U+00FF, pure ASCII with quote and backslash, and
+Latin-1 text whose bytes are not UTF-8 are all outside the class -/
+example : ∀ x ∈ [['é', '中'], ['a', '"', '\\', 'b'], []], ¬ InRereadClass x := by
+  intro x hx
+  simp only [List.mem_cons, List.not_mem_nil, or_false] at hx
+  rcases hx with rfl | rfl | rfl
+  · exact fun h => absurd (h.1 '中' (by simp)) (by decide)
+  · exact fun h => by obtain ⟨_, ⟨c, hc, hge⟩, _⟩ := h; simp at hc; rcases hc with rfl | rfl | rfl | rfl <;> revert hge <;> decide
+  · exact fun h => by obtain ⟨_, ⟨c, hc, _⟩, _⟩ := h; simp at hc
+
+/-- the witness: `dqrepr("Â\x80")` = `"\xc2\x80"` is re-read as U+0080 — the round trip fails -/
+theorem dqrepr_roundtrip_counterexample :
+    tokenize ⟨true, ['[', ']'], false, ['"']⟩ (dqrepr ['Â', Char.ofNat 0x80]) = .tree [.leaf [0x80]] ∧
+    ([0x80] : List Nat) ≠ toCps ['Â', Char.ofNat 0x80] := by
+  refine ⟨?_, by decide⟩
+  have h := dqrepr_reread ⟨true, ['[', ']'], false, ['"']⟩ (by decide) (by decide) [['Â', Char.ofNat 0x80]]
+  simp only [List.map_cons, List.map_nil, joinChar] at h
+  rw [h]
+  have e1 : latin1? (toCps ['Â', Char.ofNat 0x80]) = some [0xC2, 0x80] := by decide
+  have e2 : utf8Decode? [0xC2, 0x80] = some [Char.ofNat 0x80] := by
+    rw [show ([0xC2, 0x80] : List UInt8) = utf8 [Char.ofNat 0x80] by decide, utf8Decode?_utf8]
+  simp only [reread, e1, e2]
+  rfl
+
+/-- the class is exact: *every* argument inside it comes back as different text -/
+theorem dqrepr_class_exact (c : Conf) (hv : c.Valid) (hq : '"' ∈ c.quotes) (x : Str) (h : InRereadClass x) :
+    tokenize c (dqrepr x) ≠ .tree [.leaf (toCps x)] := by
+  have h1 := dqrepr_reread c hv hq [x]
+  simp only [List.map_cons, List.map_nil, joinChar] at h1
+  rw [h1]
+  intro he
+  injection he with he
+  injection he with he _
+  injection he with he
+  exact reread_of_class x h he
 
 end C13
